@@ -26,6 +26,7 @@ RULE = (
     "to both parsers is not masked. Non-trivial: >= 3 statements, >= 2 gate types and non-default "
     "whitespace; distinct by text digest."
 )
+RULE += ' Added after seeded-change rounds 4-5: cells named like primitives in another case (BUF, Nand, AND ...); feed-through ports through the writer.'
 ASSUMPTIONS = [
     "AST evaluator cgv.vlog and reference simulator cgv.refsim",
     "net names never contain the words input/output/assign/module (the regex-based fast parser keys on them)",
